@@ -186,6 +186,14 @@ struct Lazy
     }
 };
 
+// a plain function (streamed as a function, or as a pointer to it) is a callable as well: it works on this slot,
+// which is filled immediately before the function is streamed
+static Lazy g_fn_slot{ 0, "" };
+static std::string lazy_function()
+{
+    return g_fn_slot();
+}
+
 // a callable whose call operator is not const, and which could also be printed like any value: it is a callable,
 // so it has to be called (once) - not printed
 struct MutLazy
@@ -251,6 +259,25 @@ static void insert_one(S&& s, const ItemV& it, Cont cont)
             // a lambda and a std::function are both "callable returning std::string"
             std::function<std::string()> fn = Lazy{ it.id, it.text };
             cont(std::forward<S>(s) << fn);
+        }
+        else if (it.id % 4 == 2 && it.id < 900)
+        {
+            // ... and so are a plain function and a pointer to one
+            g_fn_slot = Lazy{ it.id, it.text };
+            if (it.id % 8 == 2)
+                cont(std::forward<S>(s) << lazy_function);
+            else
+            {
+                std::string (*fp)() = &lazy_function;
+                cont(std::forward<S>(s) << fp);
+            }
+        }
+        else if (it.id % 4 == 0 && it.id % 3 == 1)
+        {
+            // a lambda with captures, as an lvalue
+            Lazy inner{ it.id, it.text };
+            auto lam = [inner, pad = std::string("x")]() { return inner(); };
+            cont(std::forward<S>(s) << lam);
         }
         else
             cont(std::forward<S>(s) << Lazy{ it.id, it.text });
